@@ -102,6 +102,7 @@ type Explorer struct {
 	okSeen    int
 	stop      bool
 	forkSites map[string]int
+	cexSeen   map[string]int
 }
 
 func NewExplorer(prog *ssa.Program, hpkg *ssa.Package, entry *ssa.Function, cfg Config) *Explorer {
@@ -220,11 +221,14 @@ func (x *Explorer) worker(id int) {
 				x.stats.SolverTime += sv.Time
 				x.stats.SolverErrors += sv.Errors
 				x.mu.Unlock()
+				if x.cfg.Verbose {
+					fmt.Fprintf(os.Stderr, "worker %d: check %.1fs (%d), get-value %.1fs (%d)\n", id, sv.Time.Seconds(), sv.Queries, sv.ValTime.Seconds(), sv.ValCalls)
+				}
 			}
 			return
 		}
 		// restart the solver now and then to bound its memory; terms too
-		if sv == nil || sv.dead || paths%2000 == 1999 {
+		if sv == nil || sv.dead || paths%2000 == 1999 || len(ts.tab) > 400000 {
 			if sv != nil {
 				x.mu.Lock()
 				x.stats.SolverQ += sv.Queries
@@ -479,6 +483,14 @@ func (e *Exec) evalModel(t *Term) (uint64, bool) {
 // in a scope whose assertions are exactly the path condition plus extras that
 // are about to be added to it).
 func (e *Exec) fetchModel() {
+	// adaptive: extracting a model can cost far more than a check (model
+	// reconstruction through the solver's preprocessing); when it does, stop
+	// caching models and pay two checks per new branch instead
+	sv := e.sv
+	if sv.ValCalls >= 20 && sv.Queries > 0 && sv.ValTime/time.Duration(sv.ValCalls) > 3*(sv.Time/time.Duration(sv.Queries)) {
+		e.curModel = nil
+		return
+	}
 	m := e.model()
 	e.curModel = Model(m)
 }
@@ -732,7 +744,7 @@ func (e *Exec) obligation(c *Term, msg string) {
 	}
 	// sat: known finding?
 	for _, k := range e.x.cfg.Known {
-		if k.Status == "fixed" || k.Harness != e.x.cfg.Harness || !strings.Contains(msg, k.Match) {
+		if k.Status == "fixed" || !strings.HasPrefix(e.x.cfg.Harness, k.Harness) || !strings.Contains(msg, k.Match) {
 			continue
 		}
 		e.sv.Push()
@@ -796,12 +808,23 @@ func (e *Exec) finishPanic(res *PathResult, p targetPanic) {
 		res.Msg = s
 	}
 	for _, k := range e.x.cfg.Known {
-		if k.Status != "fixed" && k.Harness == e.x.cfg.Harness && k.Match != "" && strings.Contains(res.Msg, k.Match) && k.Region == "" {
+		if k.Status != "fixed" && strings.HasPrefix(e.x.cfg.Harness, k.Harness) && k.Match != "" && strings.Contains(res.Msg, k.Match) && k.Region == "" {
 			res.Kind = "known"
 			res.Known = append(res.Known, k.Property+" "+k.What)
 			e.known = append(e.known, k.Property+" "+k.What)
 			return
 		}
+	}
+	// models are expensive to extract: keep a few per distinct message
+	e.x.mu.Lock()
+	if e.x.cexSeen == nil {
+		e.x.cexSeen = map[string]int{}
+	}
+	e.x.cexSeen[res.Msg]++
+	n := e.x.cexSeen[res.Msg]
+	e.x.mu.Unlock()
+	if n > 3 {
+		return
 	}
 	e.sync()
 	if e.sv.Check() == Sat {
